@@ -372,6 +372,34 @@ def system_model(ctx):
         ctx.ob('SYSTEM-MODEL', SYS + '::System.__init__', '%s: periodic flags, symbols and masses read back are those of the system' % tag, bool(okh),
                'pbc %s symbols %s masses %s' % (e1.get('pbc'), e1.get('symbols'), e1.get('masses')), node=init, key=tag + ' read header')
     ctx.floor('SYSTEM-MODEL', n, 4)
+    # the defaults: a model written without naming a unit for the cell must still carry one (a cell stored as bare numbers is read back in whatever working units are active
+    # then: 3 angstrom written, 3 nm read) -- both through System.model() and through the system_model writer
+    box = BoxM()
+
+    class PBC0(PyStub):
+        def tolist(self):
+            return [True, True, True]
+    me = SymObj(None, {'box': box, 'pbc': PBC0(), 'symbols': SYMS, 'masses': (None, None, None), 'atoms': AtomsW(), 'natypes': 3}, 'self')
+    try:
+        pdef = [q for q in _ev(ctx, SYS).run_fn(fn, [me], {}) if q.done == 'return']
+    except (Opaque, WouldRaise) as e:
+        raise AnalysisError('System.model() with its defaults: %s' % e)
+    bm = pdef[0].ret.get('atomic-system', {}).get('box') if len(pdef) == 1 and isinstance(pdef[0].ret, dict) else None
+    ctx.ob('SYSTEM-MODEL', loc, 'System.model() with its defaults: the cell is stored with a unit of length (what is read back does not depend on the working units active then)', isinstance(bm, tuple) and bm[0] == 'BOXMODEL' and bm[1] is not None,
+           'Box.model called with length_unit=%r' % (bm[1] if isinstance(bm, tuple) else bm,), node=fn, key='default box unit')
+    dfn = ctx.fn(DSM, 'dump')
+    seen_kw = []
+
+    class Sdef(PyStub):
+        def model(self, **kw):
+            seen_kw.append(kw)
+            return _dm()({'atomic-system': 1})
+    try:
+        [q for q in _ev(ctx, DSM).run_fn(dfn, [Sdef()], {}) if q.done == 'return']
+    except (Opaque, WouldRaise) as e:
+        raise AnalysisError('system_model.dump with its defaults: %s' % e)
+    ctx.ob('SYSTEM-MODEL', DSM + '::dump', 'the system_model writer with its defaults: the cell is stored with a unit of length', len(seen_kw) == 1 and seen_kw[0].get('box_unit', 'absent') is not None,
+           'System.model called with %s' % (seen_kw,), node=dfn, key='default box unit writer')
 
 
 def ec_model(ctx):
